@@ -461,6 +461,16 @@ class ProgramOptionsSave(Contract):
         changers = sorted(set((x.get('referencedDecl') or {}).get('name') for x in _walk(save) if x.get('kind') == 'DeclRefExpr' and (x.get('referencedDecl') or {}).get('name') in TEXT_CHANGERS))
         ex.obls.append(Obligation('ProgramOptions::save#text.values_are_written_verbatim', {'C13'}, [], z3.BoolVal(not changers), 'postcondition', line_of(save),
                                   f'stream manipulators / wrappers in save() that change how a value reads when parsed back: {changers}'))
+        # ---- the config-file reader cuts every line at '#': a text value containing one is not reproduced unless save() does
+        # something about it (refuse, warn, escape).  Fact: the text branch looks at the value for a '#'
+        looks = False
+        for x in _walk(save):
+            if x.get('kind') == 'CXXMemberCallExpr' and x['inner'][0].get('name') in ('find', 'find_first_of', 'find_first_not_of', 'rfind'):
+                lits = [y.get('value', '') for y in _walk(x) if y.get('kind') in ('StringLiteral', 'CharacterLiteral')]
+                if any(('#' in str(l_)) or l_ == 35 for l_ in lits):
+                    looks = True
+        ex.obls.append(Obligation('ProgramOptions::save#text.comment_sign_in_a_text_value_is_handled', {'C13'}, [], z3.BoolVal(looks), 'postcondition', line_of(save),
+                                  "text values (file names) are written as they are and the reader drops everything from a '#' on: save() has to look for one"))
         # ---- alpha0: written as 0 only when the synchrotron frequency is the one in use (f_s != 0)
         if alpha_if is None:
             raise ExtractionError('ProgramOptions::save: alpha0 special case not found')
